@@ -44,42 +44,44 @@ Proof. repeat constructor. Qed.
 Lemma translation_complete : untranslated_actions = [] /\ untranslated_preds = [] /\ translation_problems = [].
 Proof. repeat split; reflexivity. Qed.
 
-Definition run (fuel : nat) (fl : list bool) (bytes : list N) := parse rules classes acts preds fuel fl bytes.
+(* cm = the registered custom dice parsers as a function offset -> matched length: arbitrary *)
+Definition run (cm : N -> option N) (fuel : nat) (fl : list bool) (bytes : list N) := parse_custom cm rules classes acts preds fuel fl bytes.
 
-(* A disabled dice family cannot be rolled by any input that lacks the enabling macro text:
+(* A disabled dice family cannot be rolled by any input that lacks the enabling macro text, whatever custom dice
+   parsers are registered:
    for EVERY byte string not containing "#EnableDice", every setting of the other flags and
    every fuel, parsing emits none of the family's opcodes — and leaves the flag disabled. *)
 Theorem C16_family_gated :
-  forall (fam : N) (X : list N) (bytes : list N) (fl : list bool) (fuel : nat) (o : N),
+  forall (cm : N -> option N) (fam : N) (X : list N) (bytes : list N) (fl : list bool) (fuel : nat) (o : N),
     (fam = 0 /\ X = X_wod) \/ (fam = 1 /\ X = X_coc) \/ (fam = 2 /\ X = X_fate) \/ (fam = 3 /\ X = X_dc) ->
     getf fl fam = false -> occurs macro_lit bytes = false -> mem_N o X = true ->
-    ~ In o (r_emitted (run fuel fl bytes)) /\ getf (r_cfg (run fuel fl bytes)) fam = false.
+    ~ In o (r_emitted (run cm fuel fl bytes)) /\ getf (r_cfg (run cm fuel fl bytes)) fam = false.
 Proof.
-  intros fam X bytes fl fuel o Hf Hfl Hocc Ho.
+  intros cm fam X bytes fl fuel o Hf Hfl Hocc Ho.
   assert (Hd : forall g, default_ok g rules = true) by (intros g; apply default_ok_refs; exact refs_ok_gen).
   destruct Hf as [[-> ->]|[[-> ->]|[[-> ->]|[-> ->]]]]; split.
-  - exact (gating_sound _ _ _ _ _ _ _ _ _ _ _ fl gated_wod (or_intror Hocc) macro_ascii (Hd _) Hfl fuel o Ho).
-  - exact (gating_flag_stays _ _ _ _ _ _ _ _ _ _ _ fl gated_wod (or_intror Hocc) macro_ascii (Hd _) Hfl fuel).
-  - exact (gating_sound _ _ _ _ _ _ _ _ _ _ _ fl gated_coc (or_intror Hocc) macro_ascii (Hd _) Hfl fuel o Ho).
-  - exact (gating_flag_stays _ _ _ _ _ _ _ _ _ _ _ fl gated_coc (or_intror Hocc) macro_ascii (Hd _) Hfl fuel).
-  - exact (gating_sound _ _ _ _ _ _ _ _ _ _ _ fl gated_fate (or_intror Hocc) macro_ascii (Hd _) Hfl fuel o Ho).
-  - exact (gating_flag_stays _ _ _ _ _ _ _ _ _ _ _ fl gated_fate (or_intror Hocc) macro_ascii (Hd _) Hfl fuel).
-  - exact (gating_sound _ _ _ _ _ _ _ _ _ _ _ fl gated_dc (or_intror Hocc) macro_ascii (Hd _) Hfl fuel o Ho).
-  - exact (gating_flag_stays _ _ _ _ _ _ _ _ _ _ _ fl gated_dc (or_intror Hocc) macro_ascii (Hd _) Hfl fuel).
+  - exact (gating_sound_custom cm _ _ _ _ _ _ _ _ _ _ _ fl gated_wod (or_intror Hocc) macro_ascii (Hd _) Hfl fuel o Ho).
+  - exact (gating_flag_stays_custom cm _ _ _ _ _ _ _ _ _ _ _ fl gated_wod (or_intror Hocc) macro_ascii (Hd _) Hfl fuel).
+  - exact (gating_sound_custom cm _ _ _ _ _ _ _ _ _ _ _ fl gated_coc (or_intror Hocc) macro_ascii (Hd _) Hfl fuel o Ho).
+  - exact (gating_flag_stays_custom cm _ _ _ _ _ _ _ _ _ _ _ fl gated_coc (or_intror Hocc) macro_ascii (Hd _) Hfl fuel).
+  - exact (gating_sound_custom cm _ _ _ _ _ _ _ _ _ _ _ fl gated_fate (or_intror Hocc) macro_ascii (Hd _) Hfl fuel o Ho).
+  - exact (gating_flag_stays_custom cm _ _ _ _ _ _ _ _ _ _ _ fl gated_fate (or_intror Hocc) macro_ascii (Hd _) Hfl fuel).
+  - exact (gating_sound_custom cm _ _ _ _ _ _ _ _ _ _ _ fl gated_dc (or_intror Hocc) macro_ascii (Hd _) Hfl fuel o Ho).
+  - exact (gating_flag_stays_custom cm _ _ _ _ _ _ _ _ _ _ _ fl gated_dc (or_intror Hocc) macro_ascii (Hd _) Hfl fuel).
 Qed.
 
 (* With statements disabled NO input whatsoever (macros included) can define a function, open a
    block (every `if`/`while` opens one) or emit a return; and no input can clear the flag. *)
 Theorem C16_stmts_gated :
-  forall (bytes : list N) (fl : list bool) (fuel : nat) (o : N),
+  forall (cm : N -> option N) (bytes : list N) (fl : list bool) (fuel : nat) (o : N),
     getf fl 5 = true -> mem_N o X_stmts = true ->
-    ~ In o (r_emitted (run fuel fl bytes)) /\ getf (r_cfg (run fuel fl bytes)) 5 = true.
+    ~ In o (r_emitted (run cm fuel fl bytes)) /\ getf (r_cfg (run cm fuel fl bytes)) 5 = true.
 Proof.
-  intros bytes fl fuel o Hfl Ho.
+  intros cm bytes fl fuel o Hfl Ho.
   assert (Hd : forall g, default_ok g rules = true) by (intros g; apply default_ok_refs; exact refs_ok_gen).
   split.
-  - exact (gating_sound _ _ _ _ _ _ _ _ _ _ bytes fl gated_stmts (or_introl eq_refl) (Forall_nil _) (Hd _) Hfl fuel o Ho).
-  - exact (gating_flag_stays _ _ _ _ _ _ _ _ _ _ bytes fl gated_stmts (or_introl eq_refl) (Forall_nil _) (Hd _) Hfl fuel).
+  - exact (gating_sound_custom cm _ _ _ _ _ _ _ _ _ _ bytes fl gated_stmts (or_introl eq_refl) (Forall_nil _) (Hd _) Hfl fuel o Ho).
+  - exact (gating_flag_stays_custom cm _ _ _ _ _ _ _ _ _ _ bytes fl gated_stmts (or_introl eq_refl) (Forall_nil _) (Hd _) Hfl fuel).
 Qed.
 
 Print Assumptions C16_family_gated.
@@ -87,8 +89,8 @@ Print Assumptions C16_stmts_gated.
 
 (* non-vacuity: with the family enabled, or with the macro present, the opcodes ARE emitted *)
 Example C16_nonvacuous_enabled :
-  mem_N (op "typeDiceCocBonus") (r_emitted (run 6000 [true; true; true; true; false; false; false] [98; 50])) = true.   (* "b2" *)
+  mem_N (op "typeDiceCocBonus") (r_emitted (run (fun _ => None) 6000 [true; true; true; true; false; false; false] [98; 50])) = true.   (* "b2" *)
 Proof. vm_compute. reflexivity. Qed.
 Example C16_nonvacuous_disabled :
-  mem_N (op "typeDiceCocBonus") (r_emitted (run 6000 [false; false; false; false; false; false; false] [98; 50])) = false.
+  mem_N (op "typeDiceCocBonus") (r_emitted (run (fun _ => None) 6000 [false; false; false; false; false; false; false] [98; 50])) = false.
 Proof. vm_compute. reflexivity. Qed.
